@@ -14,7 +14,7 @@ import numpy as np
 
 from vf.oracles import sigdef as S
 from vf.oracles import jaccard as J
-from vf.oracles.fasta import write_fasta
+from vf.oracles.fasta import write_fasta, soft_mask
 
 LEVEL = 'exploration'
 RULE = ('cases = (command, option combination, parameter pair); parameter pairs differ in k only, prefix only, both, or only in prefix case '
@@ -57,7 +57,7 @@ class Env:
 		self.dir.mkdir()
 		self.genomes = []
 		for i in range(5):
-			contigs = [bytes(rng.choice(b'ACGT') for _ in range(rng.randint(1500, 3000)))]
+			contigs = [soft_mask(bytes(rng.choice(b'ACGT') for _ in range(rng.randint(1500, 3000))))]
 			p = self.dir / f'genome{i}.fasta'
 			write_fasta(p, contigs)
 			self.genomes.append((p, contigs))
@@ -262,6 +262,12 @@ def run_shard(sh, ctx):
 				for qn, qo in qopts.items():
 					o = env.out(); expect_error(ctx, f'dist -k/-p + --rs / query {qn}', rel, ['dist', '-o', o, '--no-progress'] + kopts(A) + qo + ['--rs', rB], o, w)
 					o = env.out(); expect_error(ctx, f'dist -k/-p + --use-db / query {qn}', rel, ['-d', dbA, 'dist', '-o', o, '--no-progress'] + kopts(B) + qo + ['--use-db'], o, w)
+				# 5b. the SAME genomes (identical identifier lists, same order) processed under the two parameter sets: one file as queries, the
+				# other as references, and a database of those genomes
+				dbQA, _ = env.database(A, Q, f'dbq_{rel}')
+				o = env.out(); expect_error(ctx, 'dist --qs --rs, same genome ids in both files', rel, ['dist', '-o', o, '--no-progress', '--qs', qA, '--rs', qB], o, w)
+				o = env.out(); expect_error(ctx, 'dist -k/-p == --qs, --rs differs, same genome ids in both files', rel, ['dist', '-o', o, '--no-progress'] + kopts(A) + ['--qs', qA, '--rs', qB], o, w)
+				o = env.out(); expect_error(ctx, 'dist --qs --use-db, same genome ids in both', rel, ['-d', dbQA, 'dist', '-o', o, '--no-progress', '--qs', qB, '--use-db'], o, w)
 			# 6. -k without -p and vice versa; 7. --db-params with -k/-p
 			if rel == 'equal':
 				o = env.out(); expect_error(ctx, 'dist -k without -p', 'incomplete', ['dist', '-o', o, '--no-progress', '-k', A[0]] + qopts['files'] + ropts['files'], o, w)
@@ -278,6 +284,7 @@ def run_shard(sh, ctx):
 				Bq, Br = qB, rB      # B equals A (possibly different prefix case)
 				o = env.out(); expect_ok_dist(ctx, 'dist --qs --rs', env, ['dist', '-o', o, '--no-progress', '--qs', qA, '--rs', Br], o, Q, R, Aeff, w)
 				o = env.out(); expect_ok_dist(ctx, 'dist --qs --use-db', env, ['-d', dbA, 'dist', '-o', o, '--no-progress', '--qs', Bq, '--use-db'], o, Q, R, Aeff, w)
+				o = env.out(); expect_ok_dist(ctx, 'dist --qs --rs, same genome ids in both files', env, ['dist', '-o', o, '--no-progress', '--qs', qA, '--rs', Bq], o, Q, Q, Aeff, w)
 				o = env.out(); expect_ok_dist(ctx, 'dist -k/-p --qs --rs', env, ['dist', '-o', o, '--no-progress'] + kopts(B) + ['--qs', qA, '--rs', rA], o, Q, R, Aeff, w)
 				for rn, ro in ropts.items():
 					o = env.out(); expect_ok_dist(ctx, f'dist --qs + ref {rn} (inferred)', env, ['dist', '-o', o, '--no-progress', '--qs', qA] + ro, o, Q, R, Aeff, w)
@@ -330,7 +337,7 @@ def run_shard(sh, ctx):
 
 def finalize(merged, tier, seed, inconclusive):
 	c = merged['counters']
-	need = ['mismatch:query -s', 'mismatch:dist -k/-p == --qs, --rs differs', 'mismatch:dist -k/-p == --qs, --use-db differs', 'mismatch:dist --qs --rs', 'mismatch:dist --qs --use-db', 'mismatch:dist -k/-p + --qs / ref files', 'mismatch:dist -k/-p + --rs / query listfile',
+	need = ['mismatch:dist --qs --rs, same genome ids in both files', 'control:dist --qs --rs, same genome ids in both files', 'mismatch:query -s', 'mismatch:dist -k/-p == --qs, --rs differs', 'mismatch:dist -k/-p == --qs, --use-db differs', 'mismatch:dist --qs --rs', 'mismatch:dist --qs --use-db', 'mismatch:dist -k/-p + --qs / ref files', 'mismatch:dist -k/-p + --rs / query listfile',
 	        'mismatch:dist -k without -p', 'mismatch:signatures create --db-params + -k/-p', 'relation:k-differs', 'relation:prefix-differs', 'relation:both-differ', 'relation:other-side-is-the-default', 'relation:prefix-is-reverse-complement', 'relation:explicit-but-falsy',
 	        'control:dist --qs --rs', 'control:dist query files + --use-db (inferred)', 'control:query files', 'control:signatures create --db-params', 'control:tree -s', 'api_parse_calls:shared-dict', 'api_parse_database_switches']
 	for n in need:
